@@ -244,6 +244,15 @@ impl Prop for C14Prop {
         let mut mix = StreamMix::draw(rng, 200);
         mix.max_segs = rng.range(2, 6);
         l.segs = gen::gen_segs(rng, tier, &mix);
+        if buf == BufKind::Vec && rng.chance(1, 200) {
+            // a transmission longer than 2^16 in the growable buffer, then more traffic
+            let n = *rng.pick(&[65_536usize, 65_537, 65_600]);
+            let p = gen::gen_payload_len(rng, n);
+            let at = rng.below(l.segs.len());
+            l.segs.insert(at, Seg::Frame { payload: Hx(p), enc: crate::scn::Enc::Ref, faults: vec![] });
+            l.segs.push(Seg::Frame { payload: Hx(vec![1, 2, 3, 4]), enc: crate::scn::Enc::Ref, faults: vec![] });
+            l.sub = "twin-64k".into();
+        }
         let len = build_stream(&l.segs).stream.len();
         let nops = rng.below(4);
         let marks = gen::marks_of(&l.segs);
@@ -268,6 +277,9 @@ impl Prop for C14Prop {
         } else {
             None
         };
+        if stream.len() > 65_536 {
+            st.bump("probe", "stream>2^16");
+        }
         let rep: TwinReport = with_buf!(l.buf, B => twin_run::<B>(stream, &l.ops, dirty.as_deref()));
         let mut violation = rep.mismatch.as_ref().map(|m| {
             Violation::oracle("C14.twin-divergence", format!("buffer {:?}: {}", l.buf, m))
